@@ -3,6 +3,7 @@ package conv
 import (
 	"fmt"
 	"os"
+	"regexp"
 	"strings"
 
 	"verifharness/core"
@@ -98,15 +99,32 @@ func compileClass(c *Case, out string) string {
 	case strings.Contains(out, "ambiguous selector") && strings.Contains(out, "implementsGraphQLInterface"):
 		return "C01/does-not-compile/diamond-fragment-spread-on-abstract-type"
 	}
+	// `type X struct { X <custom-(un)marshaled or abstract> }`: the first-pass wrapper of the
+	// generated UnmarshalJSON embeds *X and declares a raw field X
+	if m := redeclRe.FindStringSubmatch(out); m != nil {
+		for _, t := range c.Schema.Types {
+			if t.Kind != "INPUT" || t.Name != m[1] {
+				continue
+			}
+			for _, a := range t.Inputs {
+				up := strings.ToUpper(strings.TrimLeft(a.Name, "_")[:1]) + strings.TrimLeft(a.Name, "_")[1:]
+				if mu, ok := c.Cfg.Marshalers[a.Type.Base()]; ok && up == t.Name && (mu[0] != "" || mu[1] != "") {
+					return "C01/does-not-compile/input-type-named-like-its-custom-marshaled-field"
+				}
+			}
+		}
+	}
 	return "C01/does-not-compile/" + firstErrLine(out)
 }
+
+var redeclRe = regexp.MustCompile(`: (\w+) redeclared`)
 
 func RunC01(tier string, seed int64, outDir string, replay string) (*core.Result, error) {
 	res := core.NewResult("C01", tier, seed)
 	res.Rule = "random programs of the supported fragment (every custom scalar bound, options only where the documentation allows them: pointer / alias / typename / bind / struct / flatten / omitempty / for) under random genqlient.yaml settings (optional value|pointer|generic, use_struct_references, use_extensions, context_type, client_getter, casing, bindings with and without marshalers to same-named packages); each must be ACCEPTED, and the emitted file is compiled (go build, one package per program, in a scratch module that replaces genqlient with /repo and stubs every bound type); every declaration is also compared with the converter model in-kernel; non-trivial = every program; distinct by program text + config"
 	n := 60
 	if tier == "thorough" {
-		n = 500
+		n = 1500
 	}
 	rng := core.NewRng(seed)
 	var cases []*Case
